@@ -12,7 +12,7 @@ func newUnit(prog *Program, cf *ContractFile, fi *FuncInfo, ct *Contract, inst *
 	u := &Unit{prog: prog, cf: cf, fn: fi, ct: ct, inst: inst, ctx: NewCtx(), mode: mode, theory: ct.Theory,
 		initMem: map[string]*Term{}, entry: map[string]Value{}, tvars: map[string]types.Type{}, roles: map[string]string{},
 		bdKnown: map[string]*Term{}, loopVar: map[int]types.Object{}, kernels: map[int]*Kernel{},
-		curTsub: inst.Map, hintsUsed: map[string]bool{}, calls: map[string]bool{}, loopsSeen: map[int]bool{}, havocked: map[string]bool{}}
+		curTsub: inst.Map, hintsUsed: map[string]bool{}, headCounter: map[int]int{}, calls: map[string]bool{}, loopsSeen: map[int]bool{}, havocked: map[string]bool{}}
 	return u
 }
 
@@ -405,18 +405,20 @@ func (u *Unit) extractKernel(ord int, head *State, outs []*State) {
 		findSelects(val, reads)
 		findSelects(cond, reads)
 		for _, r := range reads {
-			if r.Args[0] == hS || r.Args[0].String() == hS.String() {
+			as := r.Args[0].Sort
+			if as != hS.Sort && as != hD.Sort {
+				continue // header arrays (formats), not sample storage
+			}
+			if r.Args[0] == hS {
 				if readTerm == nil {
 					readTerm = r
 				} else if readTerm.String() != r.String() {
 					fail("the stored value reads more than one source position: " + r.String())
 					return
 				}
-			} else if strings.HasPrefix(r.Args[0].Sort, "(Array Int U_") || r.Args[0].Sort == hS.Sort || r.Args[0].Sort == hD.Sort {
-				if strings.HasPrefix(r.Args[0].Op, "H_") {
-					fail("the stored value reads another heap cell: " + r.String())
-					return
-				}
+			} else {
+				fail("the stored value reads sample storage other than the source at loop entry: " + r.String())
+				return
 			}
 		}
 		paths = append(paths, pathK{cond, val})
@@ -440,8 +442,10 @@ func (u *Unit) extractKernel(ord int, head *State, outs []*State) {
 	var walk func(t *Term)
 	walk = func(t *Term) {
 		if len(t.Args) == 0 && t.Decl {
-			if strings.Contains(t.Op, "!") { // fresh symbols: havocked state or loop variables
-				if _, isInput := u.inputSyms[t.Op]; !isInput {
+			if i := strings.LastIndexByte(t.Op, '!'); i >= 0 { // fresh symbols created at or after the loop head
+				var n int
+				fmt.Sscan(t.Op[i+1:], &n)
+				if n > u.headCounter[ord] {
 					bad = t.Op
 				}
 			}
